@@ -14,7 +14,8 @@ CLAIMED = {
         text='For every ASCII identifier up to the stated length (and shorter ones over a non-ASCII sample), each of the 8 rules and both '
              'positions, the real Inflection method ts-rs calls returns exactly what serde_derive\'s own case.rs returns whenever serde '
              'returns: z3 finds no differing input on any feasible path of the two MIR bodies. from_variant\'s routing of '
-             'rename_all_fields / variant rename_all is decided for all attribute combinations.',
+             'rename_all_fields / variant rename_all is decided for all attribute combinations; corpus items combining rename_all, '
+             'rename_all_fields and explicit renames are bound as serde\'s rules prescribe (tier B, parsed and normalised).',
         ref='DESIGN.md 4 (C09)'),
     'C08': dict(
         text='For every pair (importing file, imported file) of the form <base><symbolic bytes>.ts with the stated number of symbolic '
@@ -39,7 +40,8 @@ CLAIMED = {
              'attribute kinds, with every Option/bool of the record and the item shape symbolic, assert_validity rejects every '
              'combination of the frozen incompatibility table and nothing else, never panics; (3) EnumAttr::tagged() succeeds whenever '
              'assert_validity did (the expect() in from_variant is unreachable); Optional::or and unit::check_attributes are total and '
-             'correct. Not claimed: that accepted expansions compile (needs rustc in the loop).',
+             'correct; (4) tier B: the generated code plants the compile-time Option probe for exactly the fields marked `optional`. Not '
+             'claimed: that accepted expansions compile (needs rustc in the loop).',
         ref='DESIGN.md 4 (C16)'),
     'C15': dict(
         text='For attribute lists of up to 3 attributes whose kind (name-value or not, path `doc` or not, string literal or not) is '
@@ -47,7 +49,9 @@ CLAIMED = {
              'parse_docs/escape_doc (MIR) return either the empty string (no doc text) or exactly one block that starts with /**, ends '
              'with */ + newline, contains no other */ (also none formed with the surrounding stars), and contains every text in order '
              '(modulo the *\\/ escape); never panic. FieldAttr::merge concatenates docs and drops them for flattened fields, for all '
-             'attribute records. Doc-bearing declarations in shared files are C05 inputs; layout of DOCS before `export` is C04.',
+             'attribute records. Tier B: corpus items documented in every position vs their doc-less twins denote the same type, and each named '
+             'field\'s text is one block immediately in front of its property; documented types in a shared file keep their block in front of '
+             'their declaration for every export order. Layout of DOCS before `export` is C04.',
         ref='DESIGN.md 4 (C15)'),
     'C03': dict(
         text='Runtime half: for a type T visiting three dependencies (plus a tail with repeats / itself) whose names (distinct letters), '
@@ -56,7 +60,10 @@ CLAIMED = {
              'export_to_string/generate_imports/TS::dependencies/Dependency::from_ty/import_path (MIR) is parsed back and on every path: '
              'exactly the visited exportable dependencies living in another file are imported, each once, from a specifier that resolves to '
              'their file; statements and names strictly sorted; no self-import; Err exactly when a placement climbs above the root. '
-             'Which types the derive-generated visit_dependencies reports (macro half) is not covered.',
+             'Macro half (tier B): for every item of the corpus (about 130 derive inputs expanded by the real derive, type arguments abstract) '
+             'visit_dependencies reports exactly the parameters and corpus types the binding refers to by name (with their generic arguments) '
+             'and forwards exactly the inlined / flattened ones. Files shared by several types (different names from one path) and the shared '
+             'file of a generic type under two instantiations (WithoutGenerics) are decided against the canonical text.',
         ref='DESIGN.md 4 (C03)'),
     'C04': dict(
         text='Lexical well-formedness kernels: for every name up to the length bound over an alphabet with quotes, backslash, line breaks, '
@@ -64,27 +71,34 @@ CLAIMED = {
              'double-quoted literal that decodes to the name (z3 decides a decode-match formula on every path); to_ts_ident strips exactly '
              'the r# prefix; export_to_string is NOTE ++ import lines ++ blank line ++ DOCS? ++ "export " ++ decl ++ newline with DOCS/decl '
              'uninterpreted. Names with a Rust-alphanumeric that is not an ECMAScript identifier char are a listed known finding. A full '
-             'TypeScript grammar and the derive-built literals (variant/tag/content) are outside.',
+             'TypeScript grammar is outside; instead the inline() text of every corpus item (names in every derive position: renamed, rename_all, '
+             '`type`-overridden, raw, struct-variant fields, variant / tag / content keys) must parse under a strict TypeScript type grammar '
+             '(props/tsparse.py), and variant-name literals with a symbolic name are decided (listed known finding F15).',
         ref='DESIGN.md 4 (C04)'),
     'C06': dict(
         text='For every history of 2 (quick: reduced 3) calls over {export, export_all, export_all_to} x {A, B (share a file), C (depends on '
              'A), D (not exportable)}, every listed spelling of the export directory (env and argument) and initial directory content '
              '(empty / stale files at the targets), the real entry points (MIR, down to merge) over the file-system + registry models leave '
              'exactly the independently computed canonical contents for the set of types exported: independent of order, entry point and '
-             'spelling; stale bytes never survive; unrelated files untouched; non-exportable roots give Err.',
+             'spelling; stale bytes never survive; unrelated files untouched; non-exportable roots give Err. Two-call histories with a change '
+             'of the working directory in between: every relative directory means the one below the working directory at the time of the call.',
         ref='DESIGN.md 4 (C06)'),
     'C11': dict(
         text='For every dependency graph on 3 (thorough: 4) types (all adjacency matrices incl. self-loops and cycles), symbolic '
              'exportability and placements (nested, ../, shared file), exported with export_all / export_all_to into directories with '
              'dot segments and pre-existing unrelated files: the files created are exactly those of the exportable types reachable from '
              'the root through exportable types, each created once, nothing else written, contents canonical (imports relative to the '
-             'directory actually exported into), and default_output_path() names the root\'s file. The generated output_path() is outside.',
+             'directory actually exported into), and default_output_path() names the root\'s file. Tier B: the derive-generated output_path() '
+             'obeys the documented rule for every export_to string within the bound, and the derive-generated visit_dependencies of the corpus '
+             'reports what the binding refers to (reachability).',
         ref='DESIGN.md 4 (C11)'),
     'C13': dict(
         text='Output boundary only: the text of export_to_string is byte-identical for every permutation and duplication of the dependency '
              'visit order (the channel through which the derive\'s hash-set order and test scheduling reach the runtime), for all the '
              'C03 cells; a file shared by 2-3 types equals the canonical file for every export order; hash-collection iteration in the '
-             'executed code yields a symbolic order. Independent compilations as such are not encodable (outside).',
+             'executed code yields a symbolic order; every two-call history over the entry points leaves the canonical directory (which call '
+             'reaches a shared dependency first does not matter); two instantiations of a generic type give one text. Independent compilations '
+             'as such are not encodable (outside).',
         ref='DESIGN.md 4 (C13)'),
     'C17': dict(
         text='For histories of 2 (thorough: 3) export calls with one obstacle of the four stated kinds (target is a directory, parent is a '
@@ -111,7 +125,9 @@ CLAIMED = {
              'array length as a solver variable 0..=66: name() and inline() equal serde\'s JSON shape over the same holes, visit_generics '
              'visits exactly the type arguments, visit_dependencies forwards exactly theirs. The shape table is validated against '
              'serde_json on sample values and the impl pairing against native name() on every run. PhantomData/Weak are a listed known '
-             'finding. Feature-gated third-party impls are outside.',
+             'finding. The impls behind every `*-impl` cargo feature (chrono, bigdecimal, uuid, bson, bytes, url, indexmap, ordered-float, heapless, '
+             'semver, smol_str, serde_json, tokio) are executed from a second MIR dump against a shape table validated on serde_json samples; '
+             'bson ObjectId is a listed known finding; types without a serde representation are outside.',
         ref='DESIGN.md 6 (C12)'),
     'C07': dict(
         text='For a corpus of generic definitions (1-2 type parameters, lifetimes, bounds and where-clauses, defaults, concrete(..), '
@@ -129,7 +145,9 @@ CLAIMED = {
              'inline+flatten of a generic struct reproduce its body. Flattening is decided with the flattened text as a symbolic string '
              '(object bodies and delimited members of the stated lengths): the real replace(" } & { ", " ") and parenthesis unwrapping yield '
              'exactly the structural merge on every path. The class "lone flattened member whose outer parentheses do not match" is a '
-             'listed known finding.',
+             'listed known finding. Semantic equations: for some 40 corpus items the inline() text is parsed as a TypeScript type (precedence, '
+             'parentheses), references to corpus types are expanded by their own inline form, and the normal form (DNF, merged object literals) '
+             'equals that of the by-name twin / of the type serde\'s representation prescribes.',
         ref='DESIGN.md 6 (C14)'),
 }
 
